@@ -725,6 +725,13 @@ def regenerate():
     except Exception as e:  # noqa
         res['errors'].append(f"Flow: {type(e).__name__}: {e}")
     try:
+        import stackast_gen
+        txt, errs = stackast_gen.gen_stackast()
+        res['errors'] += [f"StackAst: {x}" for x in errs]
+        if write_if_changed(os.path.join(GEN, 'StackAst.lean'), txt): res['changed'].append('StackAst.lean')
+    except Exception as e:  # noqa
+        res['errors'].append(f"StackAst: {type(e).__name__}: {e}")
+    try:
         import worklist_gen
         txt, errs = worklist_gen.gen_worklist()
         res['errors'] += [f"Worklist: {x}" for x in errs]
